@@ -72,6 +72,31 @@ pub fn run_op(line: &str) -> String {
                 Ok(s) => op_tf(s),
             }
         }
+        "tfcmp" => {
+            // Ord / PartialOrd / PartialEq / Hash of two constructed filters (hand-written impls)
+            use mqtt_proto::TopicFilter;
+            use std::cmp::Ordering;
+            use std::hash::{Hash, Hasher};
+            let mk = |h: &str| String::from_utf8(unhex(h).unwrap()).ok().and_then(|s| TopicFilter::try_from(s).ok());
+            match (mk(toks[1]), mk(toks[2])) {
+                (Some(f), Some(g)) => {
+                    let name = |o: Ordering| match o {
+                        Ordering::Less => "lt",
+                        Ordering::Equal => "eq",
+                        Ordering::Greater => "gt",
+                    };
+                    let h = |x: &TopicFilter| {
+                        let mut s = std::collections::hash_map::DefaultHasher::new();
+                        x.hash(&mut s);
+                        s.finish()
+                    };
+                    assert!(f.partial_cmp(&g) == Some(f.cmp(&g)) && (f < g) == (f.cmp(&g) == Ordering::Less) && (f != g) == !(f == g), "partial_cmp / < / != disagree with cmp / ==");
+                    assert!(f != g || h(&f) == h(&g), "equal filters hash differently");
+                    format!("cmp={} rev={} eq={}", name(f.cmp(&g)), name(g.cmp(&f)), (f == g) as u8)
+                }
+                _ => "inv".into(),
+            }
+        }
         "tn" => {
             let bytes = unhex(toks[1]).unwrap();
             match String::from_utf8(bytes) {
